@@ -48,4 +48,37 @@ theorem cancel_keeps_inventory (group : String) (uids localNs : List String) (s 
     (pruneOne group uids localNs s live).cl.inv = s.cl.inv ∧ (applyOne group s id).cl.inv = s.cl.inv :=
   ⟨CliUtils.Props.C01.pruneOne_keeps_inv group uids localNs s live, CliUtils.Props.C01.applyOne_keeps_inv group s id⟩
 
+/-- **cancelled_run_ends_with_the_context_error**: if the caller's context was cancelled by the time a task ends (and the task
+itself returned no error), the one error event that ends the run is the CONTEXT error — also when the status watcher has
+reported a fatal error during the same task, before or after the cancellation (the runner ignores the watcher once it is
+aborting, and a later cancellation replaces the watcher's reason) -/
+theorem cancelled_run_ends_with_the_context_error (pruneObjs : List Live) (localNs : List String) (s : St) (t : Task) (ts : List Task)
+    (hok : (runTask (s.emit (.group t.name (t.action s.run.destroy) "Started")) t pruneObjs localNs).2 = none)
+    (hc : (runTask (s.emit (.group t.name (t.action s.run.destroy) "Started")) t pruneObjs localNs).1.cancelled = true) :
+    runTasks pruneObjs localNs s (t :: ts) =
+      ((runTask (s.emit (.group t.name (t.action s.run.destroy) "Started")) t pruneObjs localNs).1.emit
+        (.group t.name (t.action s.run.destroy) "Finished")).emit (.error "canceled") := by
+  unfold runTasks
+  simp only []
+  generalize runTask (s.emit (.group t.name (t.action s.run.destroy) "Started")) t pruneObjs localNs = r at hok hc ⊢
+  rw [hok]
+  simp [St.emit, hc]
+
+/-- a mutating request that is in flight when the watcher fails does not record the failure if the context has been cancelled
+by then (cancellation scheduled at an earlier request, or at this very one): the runner is already aborting -/
+theorem watcher_error_ignored_after_cancel (s : St) (verb : String) (id : Id) (dry : Bool) (precond prop : String)
+    (effect : Cluster → Cluster × String) (hc : s.cancelled = true) :
+    (s.mutReq verb id dry precond prop effect).1.watcherFailed = s.watcherFailed ∧
+    (s.mutReq verb id dry precond prop effect).1.cancelled = true := by
+  unfold St.mutReq
+  simp only []
+  split <;> simp [hc]
+
+/-- non-vacuity: a run whose cancellation and watcher error are scheduled at the same request ends with "canceled" -/
+example :
+    let run : Run := { destroy := false, objs := [{ id := ⟨"ns1", "a", "", "ConfigMap"⟩ }], opts := {},
+                       cancel := .mut 1, watchErrMut := some 1 }
+    (runOne { objs := [{ id := ⟨"", "ns1", "", "Namespace"⟩, uid := "u", gen := 1, owner := "" }] } run).events.head? = some (.error "canceled") := by
+  decide
+
 end CliUtils.Props.C12
